@@ -64,6 +64,8 @@ def lv_unpack_summary(cls, raw_bytes):
     """fork-free rewriting of CfdpLv.unpack for `bytes` input: the library returns cls(bytes()) for a zero length octet and
     cls(raw_bytes[1:1 + n]) otherwise; for a `bytes` buffer the empty slice IS bytes(), so no case split is needed.  Any other
     buffer type takes the library's own steps.  Equivalence with the real method: obligation CfdpLv.unpack/summary."""
+    if len(raw_bytes) < 1:
+        raise BytesTooShortError(1, 0)
     detected_len = raw_bytes[0]
     if 1 + detected_len > len(raw_bytes):
         raise ValueError("Detected length exceeds size of passed bytearray")
@@ -419,7 +421,7 @@ def responses_octets(items):
 
 # names / message of at most 80 octets: z3 does not build models with long sequences in reasonable time (4 + 3 * 80 <= 255, so
 # every such item is a valid TLV)
-FS_RESPONSES = ListOf(TupleOf(EnumOf(FilestoreActionCode), IntRange(0, 15), AsciiStrLen(80), AsciiStrLen(80), BytesLen(0, 80)), 2)
+FS_RESPONSES = ListOf(TupleOf(EnumOf(FilestoreActionCode), IntRange(0, 15), StrLen(80), StrLen(80), BytesLen(0, 80)), 2)
 FS_BOUND = "list length <= 2, file names and filestore message <= 80 octets each"
 
 
@@ -511,7 +513,7 @@ def finished_roundtrip_fault_widths(mode: EnumOf(TransmissionMode), crc: EnumOf(
     fin_rt_clauses(pdu, raw, suffix, conf, cc, dc, fs, fw, fv, [])
 
 
-FS_ITEM = TupleOf(EnumOf(FilestoreActionCode), IntRange(0, 15), AsciiStrLen(80), AsciiStrLen(80), BytesLen(0, 80))
+FS_ITEM = TupleOf(EnumOf(FilestoreActionCode), IntRange(0, 15), StrLen(80), StrLen(80), BytesLen(0, 80))
 # (condition code, fault-location width): the three shapes of the end of the TLV area behind the filestore responses
 FIN_TAIL = Choice((ConditionCode.NO_ERROR, None), (ConditionCode.FILESTORE_REJECTION, None), (ConditionCode.FILESTORE_REJECTION, 2))
 
@@ -617,8 +619,7 @@ def finished_unpack_arbitrary_8(data: Bytes):
 
 
 @obligation(["C06", "C09", "C10", "C04"], "FinishedPdu.unpack/arbitrary-tlvs",
-            bounded="valid fixed header with 2-octet entity IDs and 1-octet sequence number; declared TLV area <= 6 octets; "
-                    "no filestore-response TLVs (see no_filestore_response_tlv)",
+            bounded="valid fixed header with 2-octet entity IDs and 1-octet sequence number; declared TLV area <= 6 octets",
             verifies=[FIN + "FinishedPdu.unpack", FIN + "FinishedPdu._unpack_tlvs"], max_paths=4000, branch_timeout_ms=120)
 def finished_unpack_arbitrary_tlvs(direction: EnumOf(Direction), mode: EnumOf(TransmissionMode), crc: EnumOf(CrcFlag),
                                    large: EnumOf(LargeFileFlag), src: Int, seq: Int, dst: Int, area: IntRange(0, 6), rest: Bytes):
@@ -632,8 +633,6 @@ def finished_unpack_arbitrary_tlvs(direction: EnumOf(Direction), mode: EnumOf(Tr
     hl = 4 + 2 * we + ws
     n = hl + 2 + area + crc_len(crc)
     data = pdu_header_octets(0, direction, mode, crc, large, 2 + area + crc_len(crc), 0, 0, we, ws, src, seq, dst) + rest
-    if len(data) >= n:
-        no_filestore_response_tlv(data, hl + 2, hl + 2 + area)
     o = outcome(FinishedPdu.unpack, data)
     ensures("raises-only", o.ok or o.raised(ValueError, InvalidCrc, UnsupportedCfdpVersion))
     if o.ok:
@@ -642,7 +641,6 @@ def finished_unpack_arbitrary_tlvs(direction: EnumOf(Direction), mode: EnumOf(Tr
         ensures("crc-gate", implies(crc == 1, crc16(data[0:n]) == 0))
         ensures("codes", both(g.condition_code == bits(data[hl + 1], 7, 4), g.delivery_code == bits(data[hl + 1], 2, 2),
                               g.file_status == bits(data[hl + 1], 1, 0)))
-        ensures("no-responses", g.file_store_responses == [])
         o2 = outcome(FinishedPdu.unpack, data[0:n])
         ensures("prefix-only", both(o2.ok, same_state(g, o2.value)))
 
